@@ -11,9 +11,8 @@ def run(chk):
     hobl.c12_step(chk, ex)
     from . import strategies
     strategies.strategy_contract(chk, "C13", "wait")
-    hobl.c12_step.__name__  # pending handled below
-    hobl_pending(chk, ex)
+    from . import c15
+    # "exactly the state its previous poll returned (as restored by the configured serialization)": with the default serializer the restored state
+    # is an equal, FRESH value - not an object another poll (or an earlier delivery of the same text) may have mutated
+    c15.containers(chk, only=("list", "dict.str_keys"), prefix="C13")
 
-
-def hobl_pending(chk, ex):
-    pass
